@@ -138,6 +138,8 @@ VARIANTS = [
     B("isabs-guard-removed", ["C17"], (RS, "        if os.path.isabs(linkpoint):", "        if True:")),
     B("checksum-comparison-inverted", ["C17"], (RS, "if checksum is not None and checksum == md5(data).digest():", "if checksum is not None and checksum != md5(data).digest():")),
     P("rsync-locals-renamed", ["C17"], (RR, "                    msg_mode, msg_mtime, msg_size = msg\n                    if msg_size != st.st_size:\n                        pass\n                    elif msg_mtime != st.st_mtime:", "                    msg_mode, msg_mtime, msg_size = msg\n                    if msg_size != st.st_size:\n                        pass  # size differs: always request\n                    elif msg_mtime != st.st_mtime:")),
+    B("list-done-unguarded-table-read", ["C17"], (RS, "self._to_send.get(channel, ())", "self._to_send[channel]")),
+    P("list-done-guarded-by-membership", ["C17"], (RS, "            s = sum([self._paths[i] for i in self._to_send.get(channel, ())])", "            s = 0\n            if channel in self._to_send:\n                s = sum([self._paths[i] for i in self._to_send[channel]])")),
     B("id-step-one", ["C18"], (GB, "                self.count += 2", "                self.count += 1")),
     B("worker-startcount-one", ["C18"], (GB, "WorkerGateway(io=io, id=id, _startcount=2).serve()", "WorkerGateway(io=io, id=id, _startcount=1).serve()")),
     B("allocation-outside-lock", ["C18"], (GB, "        with self._writelock:\n            if self.finished:\n                raise OSError(f\"connection already closed: {self.gateway}\")\n            if id is None:\n                id = self.count\n                self.count += 2", "        if id is None:\n            id = self.count\n            self.count += 2\n        with self._writelock:\n            if self.finished:\n                raise OSError(f\"connection already closed: {self.gateway}\")")),
